@@ -481,9 +481,11 @@ def hasHandlers {V} (hs : List (Handler V)) : Bool := hs.any matchesResource
 -- `Obj.carried`: there are any; `Obj.carriedOps`: they still yield a JSON-patch operation on the body at
 -- hand (else no request is sent for them). /repo 608a57d forgot the fulfilled ones before the cycle;
 -- its rework 02af7ce keeps them in the patch and makes the early exit come back at once instead
--- (`Repairs`). Since /repo 423b86f the "blind" branch (no changing handler prematches) purges the
+-- (`Repairs`). /repo 423b86f made the "blind" branch (no changing handler prematches) purge the
 -- progress records of the resource's handlers and of their sub-handlers that are PRESENT on the object
--- (`Obj.records`). Consistency: pre-proven (`consistency_time is None`) or, with `Obj.timed`, a deadline
+-- (`Obj.records`); /repo ad4ec08 took that purge out again (finding C15-F9: "its own" records were
+-- recognised by name only, so one deployment purged the records of another): the blind branch writes
+-- NOTHING, the variant with the purge is kept for the regression theorems. Consistency: pre-proven (`consistency_time is None`) or, with `Obj.timed`, a deadline
 -- that is over already (both give `consistency_is_achieved = True` before the patch is looked at); since
 -- /repo 30557a0 the early exit to PATCHing returns the remaining waiting time as a delay when there is
 -- a deadline, since 02af7ce a zero delay when the cycle started with a non-empty patch.
@@ -522,7 +524,7 @@ inductive Effect where
   | carried                              -- an earlier cycle's rejected transformation is RE-SENT (it still changes the object)
   | invokeWatching (ids : List String)   -- on.event handlers run (their results go to patch.status)
   | spawn (ids : List String)            -- daemons/timers matched for spawning
-  | purge (ids : List String)            -- the blind branch: progress records of these ids are patched AWAY
+  | purge (ids : List String)            -- the blind branch of 423b86f: progress records of these ids are patched AWAY
   | addFinalizer                         -- patch.fns += block_deletion
   | removeFinalizer                      -- patch.fns += allow_deletion
   | handle (ids : List String)           -- process_changing_cause: handlers, progress & diff-base annotations
@@ -553,7 +555,8 @@ def ids {V} (hs : List (Handler V)) : List String := hs.map (·.id)
 /-- the ids of `registry._changing.get_resource_handlers(resource)` (`_deduplicated` keeps the id set) -/
 def ownedIds {V} (hs : List (Handler V)) : List String := ids (hs.filter matchesResource)
 
-/-- `State.from_storage(handlers=owned).purge(handlers=owned)`: `storage.purge` patches a key away only
+/-- (the blind purge of /repo 423b86f, reverted by ad4ec08; kept for the regression theorems and for
+    checks against a tree that has it) `State.from_storage(handlers=owned).purge(handlers=owned)`: `storage.purge` patches a key away only
     if the body has it; the keys tried are the owned ids and the `subrefs` of the owned records found -/
 def purgeIds {V} (hs : List (Handler V)) (records : List (String × List String)) : List String :=
   let owned := ownedIds hs
@@ -605,12 +608,13 @@ structure ForgetAtoms where
 def forgetCore (a : ForgetAtoms) : Bool := a.carriedNotNone && !a.hasOps
 
 /-- which of today's repairs of `processing.py` are in the code (named variants: /repo as it is --
-    `rework` --, 423b86f as first committed -- `at608` --, and the code BEFORE a repair for the regression
-    theorems) -/
+    `head`: ad4ec08, blind again --, 02af7ce with the blind purge of 423b86f -- `rework` --, 423b86f as
+    first committed -- `at608` --, and the code BEFORE a repair for the regression theorems) -/
 structure Repairs where
   forgetFulfilled : Bool   -- /repo 608a57d: carried transformations that are fulfilled already are forgotten
                            -- at the head of process_resource_event (removed again by the rework)
   blindPurge : Bool        -- /repo 423b86f: the blind branch purges the leftover progress records
+                           -- (reverted by /repo ad4ec08: finding C15-F9)
   exitDeadline : Bool      -- /repo 30557a0: the early exit returns the remaining waiting time as a delay
   exitCarried : Bool       -- the rework of 608a57d: the early exit returns a zero delay when the cycle started
                            -- with a non-empty (carried) patch: a patch that sends nothing is followed by a touch
@@ -618,8 +622,19 @@ structure Repairs where
 
 /-- /repo 423b86f as first committed: with 608a57d's head block, before its rework -/
 def Repairs.at608 : Repairs := ⟨true, true, true, false⟩
-/-- /repo 02af7ce, the code as it is: 608a57d's head block removed again, the early exit comes back at once -/
+/-- /repo 02af7ce (on top of 423b86f): 608a57d's head block removed again, the early exit comes back at
+    once; the blind branch still purges by name (finding C15-F9) -/
 def Repairs.rework : Repairs := ⟨false, true, true, true⟩
+/-- /repo ad4ec08, the code as it is: 02af7ce with 423b86f reverted -- the operator is blind again to the
+    objects it does not match (no purge in the blind branch); 30557a0's deadline arm and 02af7ce's
+    come-back-at-once stay -/
+def Repairs.head : Repairs := ⟨false, false, true, true⟩
+
+/-- what the blind branch patches away in variant `v` from an object that nothing prematches: the present
+    records `purgeIds` names with 423b86f, nothing at all without it (the code as it is) -/
+def blindPurged {V} (v : Repairs) (hs : List (Handler V)) (records : List (String × List String)) :
+    List String :=
+  if v.blindPurge then purgeIds hs records else []
 
 /-- the early exit of `process_resource_causes`: is a delay returned besides the spawning delays?
     `if paused: pass / elif consistency_time is not None: [remaining] / elif not patch_initially_empty: [0.]`
@@ -704,8 +719,8 @@ def cycleFull {V} [PyVal V] (v : Repairs) (r : Registry V) (cs : Causes V) (o : 
   let watching := if hasW && !wIds.isEmpty then [Effect.invokeWatching wIds] else []
   let sIds := ids (getHandlersPlain r.spawning cs.spawning stopped)
   let spawning := if hasS && !o.ongoing && !sIds.isEmpty then [Effect.spawn sIds] else []
-  -- `if changing_cause is not None and not registry._changing.prematch(...)`: be blind to it,
-  -- but patch away the leftover progress records of the resource's handlers
+  -- `if changing_cause is not None and not registry._changing.prematch(...)`: be blind to it
+  -- (the variants with 423b86f: but patch away the leftover progress records of the resource's handlers)
   let blind := blindCore { hasChanging := hasC, prematch := prematchAny r.changing cs.changing }
   let purged := if v.blindPurge && blind then purgeIds r.changing o.records else []
   let changing₁ := hasC && !blind
@@ -738,9 +753,9 @@ def cycleDelaysAt {V} [PyVal V] (v : Repairs) (r : Registry V) (cs : Causes V) (
     Bool :=
   (cycleFull v r cs o stopped).2
 
-/-- the code as it is (/repo 02af7ce); every theorem that does not depend on the difference is proved
-    for all variants with the blind purge -/
+/-- the code as it is (/repo ad4ec08); every theorem that does not depend on the difference is proved
+    for all variants, or for all variants without the blind purge -/
 def cycle {V} [PyVal V] (r : Registry V) (cs : Causes V) (o : Obj) (stopped : List String) : List Effect :=
-  cycleAt Repairs.rework r cs o stopped
+  cycleAt Repairs.head r cs o stopped
 
 end Kopf.C15
